@@ -840,7 +840,11 @@ class Interp:
         # the IR does not tell us) outputs.
         cargs = []
         ptr_bases = []
-        for a in args:
+        ro = ins.get('ro') or []
+        readonly_bases = set()
+        for ai, a in enumerate(args):
+            if a.ty == 'ptr' and a.op == 'ptr' and ai < len(ro) and ro[ai]:
+                readonly_bases.add(a.attr)
             if a.ty == 'ptr':
                 if a.op == 'ptr':
                     base = a.attr
@@ -862,6 +866,8 @@ class Interp:
             g = self.globals.get(base[2:]) if base.startswith('g:') else None
             if g is not None and g.get('const'):
                 continue
+            if base in readonly_bases and sum(1 for a in args if a.op == 'ptr' and a.attr == base) == 1:
+                continue        # the callee provably only reads through this argument (LLVM function-attrs)
             nm = Mem(base, state[base].kind)
             nm.arr = T.mk('callmem', i, (node,), 'mem')
             state[base] = nm
